@@ -218,10 +218,11 @@ fn transform_submodule(
         // TypDef has generics attached: only one case
         // (c) Subtype is generic with a concretisation here
 
-        // Get base-node for the generic type.
-        let (mut node, req_args) = nodes.get(&typ.ident)
-            .expect("unreachable: parse order should guarantee, that all required modules are already parsed")
-            .clone();
+        // Get base-node for the generic type. A local generic binding cannot take type
+        // arguments itself, so it is not a known node.
+        let Some((mut node, req_args)) = nodes.get(&typ.ident).cloned() else {
+            return Err(ErrorKind::InvalidTypStatement(typ.clone(), Vec::new()).into());
+        };
 
         // Check that the assigment matches all required generics
         if req_args.len() != typ.args.len() {
@@ -238,7 +239,12 @@ fn transform_submodule(
             // Get the concrete type, used as a replacement
             let (concrete_replacement, replacement_deps) = nodes.get(concrete_replacement_name)
                 .expect("unreachable: parse order should guarantee, that all required modules are already parsed");
-            assert!(replacement_deps.is_empty());
+            // The replacement must be a concrete type, it cannot require type arguments itself.
+            if !replacement_deps.is_empty() {
+                return Err(
+                    ErrorKind::InvalidTypStatement(typ.clone(), replacement_deps.clone()).into(),
+                );
+            }
 
             // Ensure that the replacement conforms to all required parameters
             let interface = nodes.get(&generic_binding.bound).expect("unreachable: parse order should guarantee, that all required modules are already parsed");
